@@ -399,6 +399,14 @@ def scenario_sequences():
                                                        ["try_create", [7]]]))
         out.append(("uniqueness_boundary", [rx(60, info=[7, 1])] + [["tick", 30720 + d - 10]] + neighbours()
                     + [["tick", 10], ["try_create", [7, 7, 9]]]))
+    for r in range(6):
+        out.append((f"breakup_reason_{r}", make_passive() + [rx(50, breakup=r), ["tick", 103], ["update"],
+                                                            ["tick", 2048], ["update"]]))
+        out.append((f"own_breakup_reason_{r}", neighbours() + [["try_create", [7]], ["breakup", r], ["tick", 1024],
+                                                              ["update"], ["tick", 2048], ["update"]]))
+    for r in range(9):
+        out.append((f"leave_reason_{r}", make_passive() + [["leave", r], ["tick", 512], ["update"], ["tick", 512],
+                                                          ["update"]]))
     out.append(("join_time_steps", [["join", 7]] + [x for _ in range(14) for x in (["tick", 255], ["update"])]))
     out.append(("breakup_by_leader", make_passive() + [rx(50, breakup=1), ["update"]]))
     out.append(("breakup_by_other", make_passive() + [rx(60, breakup=1), ["update"]]))
@@ -426,11 +434,9 @@ def malformed_stream(ctx, n):
              {"header": {"stationId": 5}, "vam": {"vamParameters": {}}},
              {"header": {"stationId": 5}, "vam": {"vamParameters": {"basicContainer": {}}}},
              {"header": {"stationId": 5}, "vam": {"vamParameters": {"basicContainer": {"referencePosition": {}}}}}]
-    good = ci.vam_dict({"sender": 5, "near": True, "info": [7, 2], "join": 7, "leave": 7, "breakup": 1}, True)
     for _ in range(n):
-        d = json.loads(json.dumps(good))  # tuples become lists: another malformed variant
-        if rng.random() < 0.5:
-            d = ci.vam_dict({"sender": 5, "near": True, "info": [7, 2], "join": 7, "leave": 7, "breakup": 1}, True)
+        d = ci.vam_dict({"sender": 5, "near": True, "info": [7, 2], "join": 7, "leave": 7, "breakup": 1},
+                        rng.random() < 0.5)
         # delete a random key somewhere
         node, path = d, []
         for _ in range(rng.randrange(1, 6)):
@@ -438,10 +444,13 @@ def malformed_stream(ctx, n):
                 k = rng.choice(sorted(node))
                 path.append(k)
                 if rng.random() < 0.35 or not isinstance(node[k], dict):
-                    if rng.random() < 0.5:
+                    # only what a decoder can deliver short of a well-formed VAM: an absent component or an
+                    # empty constructed value (type confusion such as a string for a container is C04's
+                    # subject, not this property's)
+                    if rng.random() < 0.6 or not isinstance(node[k], dict):
                         del node[k]
                     else:
-                        node[k] = rng.choice([None, {}, 0, "x", []])
+                        node[k] = {}
                     break
                 node = node[k]
         cases.append(d)
@@ -459,7 +468,7 @@ def malformed_stream(ctx, n):
             impl.mgr.update(ci.OWN_LAT, ci.OWN_LON, 1.0, 90.0)
             after = None
         except Exception as e:  # noqa: BLE001
-            ctx.property_failure("exception", {"op": "malformed_vam", "vam": repr(d)[:600]},
+            ctx.property_failure("malformed_vam_exception", {"op": "malformed_vam", "vam": repr(d)[:600]},
                                  f"on_received_vam raised {type(e).__name__}: {str(e)[:200]}")
             continue
         after = impl.dump(tables=False)   # table keys of a malformed VAM may be of any type
@@ -570,11 +579,11 @@ def closed_loop(ctx, params):
                 try:
                     s.tx.location_service_callback(s.tpv(clock))
                 except Exception as e:  # noqa: BLE001
-                    o = s.trace[-1][1]
-                    cls = "cluster_info_not_encodable" if o["info"] is not None else (
-                        "cluster_op_not_encodable" if o["op"][0] != 0 else "exception")
-                    fails.append((cls, f"station {s.sid} (state {ci.STATE_NAMES[o['vst']]}) could not generate its "
-                                       f"VAM: {type(e).__name__}: {str(e)[:160]}"))
+                    o = s.impl.dump()
+                    found = wire_check(s.mgr, o)   # which of the two containers does not pass the coder?
+                    for cls in sorted({c for c, _ in found}) or ["exception"]:
+                        fails.append((cls, f"station {s.sid} (state {ci.STATE_NAMES[o['vst']]}) could not generate "
+                                           f"its VAM: {type(e).__name__}: {str(e)[:160]}"))
                     continue
                 o = s.trace[-1][1]
                 if s.btp.sent:
@@ -727,6 +736,9 @@ def run_witness(ctx, w):
         closed_loop(ctx, {k: v for k, v in w.items() if k != "op"})
     elif w.get("op") == "malformed_vam":
         malformed_stream(ctx, 0)
+    elif w.get("op") == "constants":
+        for cls, detail in ci.spec_constant_failures(ci.modules()[1]):
+            ctx.property_failure(cls, {"op": "constants"}, detail, "value of TS 103 300-3 Table 15")
 
 
 def run(ctx):
@@ -739,8 +751,11 @@ def run(ctx):
                 "VAMTransmissionManagement, VAMCoder and VAMReceptionManagement; every executed event is counted as one "
                 "evaluation; a sequence is non-trivial when it visits at least two different control states (state "
                 "name, join / leave sub-state, kind of operation container), distinct by (start time, station, events)")
-    ci.modules()
+    vc, K = ci.modules()
     import os
+    for cls, detail in ci.spec_constant_failures(K):
+        ctx.property_failure(cls, {"op": "constants"}, detail, "value of TS 103 300-3 Table 15")
+    ctx.count(len(ci.SPEC_SECONDS), "timing_constants")
     corpus = os.path.join(common.VERIF, "corpus", "C18")
     for k in ctx.known:
         run_witness(ctx, k["witness"])
